@@ -1166,7 +1166,11 @@ class Interp:
         if isinstance(a, bool) and isinstance(b, bool):
             return a == b
         if isinstance(a, SElem) and isinstance(b, SElem):
-            return mk_bool(a.z == b.z)
+            # ids of opaque elements denote values modulo the language's equality: the same object is an equal
+            # value, but equal values need not be the same object
+            same = self.fresh_bool("same_object")
+            self.path.assume(z3.Implies(same.z, a.z == b.z), check=False)
+            return same
         if isinstance(a, (SBool, bool)) and isinstance(b, (SBool, bool)):
             return mk_bool(zb(a) == zb(b))
         if _native(a) and _native(b):
@@ -1291,6 +1295,8 @@ class Interp:
 
     def py_member_eq(self, item, x, node):
         """`x is item or x == item` as used by list/dict/set membership."""
+        if isinstance(item, SElem) and isinstance(x, SElem):
+            return self.eq(item, x, node)
         idt = self.identical(item, x)
         if idt is True:
             return True
@@ -1361,6 +1367,8 @@ class Interp:
 
     def set_has(self, s, x, node=None):
         self.check_hashable(x, node)
+        if s.sym_dom is not None:
+            return mk_bool(z3.Select(s.sym_dom, self.world.key_term(self, s, x, node)))
         for item in s.items:
             if self.truth(self.key_eq(item, x, node)):
                 return True
@@ -1369,6 +1377,10 @@ class Interp:
     def set_add(self, s, x, node=None):
         if not s.fresh:
             self.writes.append((s, "add", node))
+        if s.sym_dom is not None:
+            self.check_hashable(x, node)
+            s.sym_dom = z3.Store(s.sym_dom, self.world.key_term(self, s, x, node), True)
+            return
         if not self.set_has(s, x, node):
             s.items.append(x)
 
@@ -1376,6 +1388,11 @@ class Interp:
         if not s.fresh:
             self.writes.append((s, "remove", node))
         self.check_hashable(x, node)
+        if s.sym_dom is not None:
+            kt = self.world.key_term(self, s, x, node)
+            self.guard(mk_bool(z3.Select(s.sym_dom, kt)), "KeyError", node)
+            s.sym_dom = z3.Store(s.sym_dom, kt, False)
+            return
         for i, item in enumerate(s.items):
             if self.truth(self.key_eq(item, x, node)):
                 del s.items[i]
@@ -1570,6 +1587,11 @@ class Interp:
         return _PYCMP[t](len(a.items), len(b.items))
 
     def dict_eq(self, a, b, node):
+        if a.is_sym() and b.is_sym():
+            k = z3.Const(self.fresh("k"), a.sym_dom.domain())
+            return mk_bool(z3.And(a.sym_dom == b.sym_dom,
+                                  z3.ForAll([k], z3.Implies(z3.Select(a.sym_dom, k),
+                                                            z3.Select(a.sym_val, k) == z3.Select(b.sym_val, k)))))
         if a.is_sym() or b.is_sym():
             self.unsupported("equality of symbolic dicts", node)
         if len(a.entries) != len(b.entries):
@@ -1583,6 +1605,10 @@ class Interp:
         return True
 
     def set_eq(self, a, b, node):
+        if a.sym_dom is not None and b.sym_dom is not None:
+            return mk_bool(a.sym_dom == b.sym_dom)
+        if a.sym_dom is not None or b.sym_dom is not None:
+            self.unsupported("equality of symbolic and concrete set", node)
         if len(a.items) != len(b.items):
             return False
         for x in a.items:
